@@ -45,7 +45,7 @@ def cases(seed, tier, shard, nshards):
             made += 1
             yield c
             continue
-        if rng.random() < 0.2:
+        if rng.random() < 0.4:
             # label-insensitive convention on inputs whose descriptor kinds alone determine the pairing
             c = MC.random_shared_case(rng, rng.choice([6, 10, 16]), p_share=rng.choice([0.3, 0.6]), label_insensitive=True)
         else:
